@@ -156,6 +156,9 @@ func execCache(in, outp string) {
 					s.close()
 					s = nil
 				}
+				if len(t) == 3 && t[2] == "citadel" {
+					s = newCitadelSUT(0.5, 0)
+				}
 				if len(t) == 7 && t[2] == "cache" {
 					r, ok1 := fracToken(t[3], t[4])
 					j, ok2 := fracToken(t[5], t[6])
@@ -174,6 +177,14 @@ func execCache(in, outp string) {
 			}
 			if s == nil {
 				s = newSUT(0.5, 0, false)
+			}
+			if t[0] == "cgen" {
+				g, ok := s.cgenAsGen(t)
+				if !ok {
+					out.Line("bad-op")
+					return
+				}
+				t = g
 			}
 			switch t[0] {
 			case "gen":
@@ -253,9 +264,12 @@ func execCache(in, outp string) {
 //	sticky-failure      the cache is empty, the CA answers correctly, and the request still fails
 //	error-cached        a failed signing attempt left something in the cache or in the queue
 //	root-missing        a ROOTCA answer lacks a root of the CA response behind the cached certificate, or a configured anchor
+//	root-not-ca         a served / cached / recorded trust root is not a CA certificate (e.g. the workload's own leaf)
 //	merge-unsorted      a ROOTCA answer is not sorted / de-duplicated
 //	renewal-count       a newly cached certificate did not schedule exactly one rotation (or one was scheduled without a new certificate)
 //	negative-delay, late-schedule, not-strict   scheduled delay vs time to expiry
+//	notify-before-clear a `default` callback was delivered while a certificate was still cached (a subscriber
+//	                    re-requesting from the callback would get the old certificate and nobody would renew it)
 //	rotation-missed     the rotation task of the cached certificate did not clear the cache and notify `default`
 //	stale-timer-cleared a rotation task of an older certificate changed the cache or notified
 //	root-unannounced    a workload request obtained a CA response whose root differs from the recorded one without OnSecretUpdate(ROOTCA)
@@ -303,6 +317,9 @@ func oracleCache(in, outp string) {
 				ratio, _ = fracToken(t[3], t[4])
 				jitter, _ = fracToken(t[5], t[6])
 			}
+			if len(t) == 3 && t[2] == "citadel" {
+				s = newCitadelSUT(ratio, jitter)
+			}
 			lastCARoots = ""
 			continue
 		}
@@ -324,6 +341,19 @@ func oracleCache(in, outp string) {
 					fail("crash", t, fmt.Sprint(e))
 				}
 			}()
+			orig := t
+			if t[0] == "cgen" {
+				g, ok := s.cgenAsGen(t)
+				if !ok {
+					return
+				}
+				t = g
+				defer func() {
+					if verdict != "" && !strings.Contains(verdict, "cgen") {
+						verdict += " " + wire.Enc(join(orig))
+					}
+				}()
+			}
 			switch t[0] {
 			case "gen":
 				if len(t) < 3 {
@@ -361,6 +391,9 @@ func oracleCache(in, outp string) {
 				if it == nil {
 					fail("no-pair", t, "nil item")
 					return
+				}
+				if nonCARoot(it.RootCert) || (after != nil && nonCARoot(after.RootCert)) || nonCARoot(nacache.VerifCachedRoot(s.sc)) {
+					fail("root-not-ca", t, rootLetters(it.RootCert))
 				}
 				if res == security.WorkloadKeyCertResourceName && (it.PrivateKey == nil || it.CertificateChain == nil) {
 					fail("no-pair", t, "")
@@ -442,6 +475,9 @@ func oracleCache(in, outp string) {
 				_ = s.sc.UpdateConfigTrustBundle(b)
 				ev := s.takeEvents()
 				after := nacache.VerifCachedWorkload(s.sc)
+				if strings.Contains(ev, "w") {
+					fail("notify-before-clear", t, ev)
+				}
 				if !bytes.Equal(beforeCfg, b) {
 					if ev != "RW" || after != nil || !bytes.Equal(nacache.VerifConfigTrustBundle(s.sc), b) {
 						fail("bundle-unannounced", t, ev)
@@ -464,6 +500,9 @@ func oracleCache(in, outp string) {
 				_ = e.task()
 				ev := s.takeEvents()
 				after := nacache.VerifCachedWorkload(s.sc)
+				if strings.Contains(ev, "w") {
+					fail("notify-before-clear", t, ev)
+				}
 				if own && (after != nil || ev != "W") {
 					fail("rotation-missed", t, ev)
 				}
